@@ -103,6 +103,39 @@ Proof. induction upper as [|u upper IH]; simpl; [reflexivity|now rewrite IH]. Qe
 Lemma base_complete_cons (s : stack) (l : layer) : base_complete s -> base_complete (l :: s).
 Proof. intros (upper & base & -> & Hb). exists (l :: upper), base. split; auto. Qed.
 
+(** ** Invocation sites *)
+
+Notation invoke_site := (invoke_site P A R).
+
+Lemma site_same_is_invoke repaired (s : stack) h arg fuel :
+  invoke_site repaired s h arg fuel PassSame = invoke repaired s h arg fuel.
+Proof. reflexivity. Qed.
+
+Definition empty_layer (p : P) : layer := {| CbModel.l_priv := p; CbModel.l_hook := fun _ => None |}.
+
+(** stacking any number of layers that override nothing (whatever their
+    private data) on a context does not change what any in-library call site
+    obtains: the same implementation, called with its own record *)
+Lemma empty_layers_change_nothing (privs : list P) : forall (s : stack) h arg fuel,
+  base_complete s -> length s < fuel ->
+  invoke_site true (map empty_layer privs ++ s) h arg (length privs + fuel) PassSame
+  = invoke_site true s h arg fuel PassSame /\
+  exists r, invoke_site true s h arg fuel PassSame = Done R r /\ invoke_spec s h arg = Some r.
+Proof.
+  induction privs as [|p privs IH]; intros s h arg fuel Hb Hf.
+  - split; [reflexivity|]. rewrite site_same_is_invoke. now apply passthrough.
+  - destruct (IH s h arg fuel Hb Hf) as [IH1 IH2]. split; [|exact IH2].
+    rewrite !site_same_is_invoke in *. cbn [map app length Nat.add].
+    rewrite <- IH1.
+    apply (untouched_hook_changes_nothing (map empty_layer privs ++ s) (empty_layer p) h arg).
+    + reflexivity.
+    + clear - Hb. induction privs as [|q privs IHp]; [exact Hb|]. now apply base_complete_cons.
+    + rewrite app_length, map_length. lia.
+Qed.
+
+Lemma library_sites_pass_same : Forall (fun hs => snd hs = PassSame) library_sites.
+Proof. repeat constructor. Qed.
+
 End Proofs.
 
 (** * The pinned default hooks (DESIGN item 3) *)
@@ -139,3 +172,14 @@ Proof.
   destruct fuel as [|fuel]; [reflexivity|].
   cbn [call nth_error demo_empty l_hook passes_next]. apply H.
 Qed.
+
+(** a call site that hands the top function some other record (here: the
+    dump object's own record at position 1, below one empty layer) makes the
+    pass-through default continue *below* that record: the dump object's
+    implementation is skipped and the context's default answers *)
+Lemma site_other_record_wrong :
+  invoke_site nat unit (nat * nat) true [demo_empty 2; demo_impl 1; demo_base] HSymValue tt 8
+              (PassOther 1) = Done _ (0, 0) /\
+  invoke_site nat unit (nat * nat) true [demo_impl 1; demo_base] HSymValue tt 8 (PassOther 0)
+    = Done _ (1, 1).
+Proof. split; reflexivity. Qed.
